@@ -3949,4 +3949,78 @@ theorem lstate_init (g : Graph) (d : Nat → Nat) (ncls : Nat) (store : List (St
   cases (List.range ncls)[(g.node g.root).cls]? <;> rfl
 
 
+
+/-- decidable form of `LazyOK` -/
+def lazyOKB (g : Graph) : Bool :=
+  (List.range g.nodes.length).all (fun f =>
+    (!(g.node f).flat || (g.node f).cleanup.all (fun e => strIn (g.node f).setless (g.nodeId e.1))) &&
+    (!((g.node f).flat && !(g.node f).sharedRoot) || (rootKids g).contains f) &&
+    (!(g.node f).flat || (List.range g.nodes.length).all (fun m => !((g.node m).cls == (g.node f).cls) || m == f)))
+
+theorem node_flat_of_ge (g : Graph) (f : Nat) (h : ¬ f < g.nodes.length) : (g.node f).flat = false := by
+  unfold Graph.node
+  rw [List.getD_eq_getElem?_getD, List.getElem?_eq_none (by omega)]
+  rfl
+
+theorem lazyOKB_sound {g : Graph} (h : lazyOKB g = true) : LazyOK g := by
+  unfold lazyOKB at h
+  rw [List.all_eq_true] at h
+  refine ⟨?_, ?_, ?_⟩
+  · intro f c hf hc
+    have hfN : f < g.nodes.length := by
+      by_cases hx : f < g.nodes.length
+      · exact hx
+      · rw [node_flat_of_ge g f hx] at hf; cases hf
+    have h1 := h f (List.mem_range.mpr hfN)
+    simp only [Bool.and_eq_true, Bool.or_eq_true, Bool.not_eq_true'] at h1
+    rcases h1.1.1 with h2 | h2
+    · rw [hf] at h2; cases h2
+    · rw [List.all_eq_true] at h2
+      obtain ⟨e, he, hec⟩ := List.mem_map.mp hc
+      rw [← hec]; exact h2 e he
+  · intro f hfN hf hsr
+    have h1 := h f (List.mem_range.mpr hfN)
+    simp only [Bool.and_eq_true, Bool.or_eq_true, Bool.not_eq_true'] at h1
+    rcases h1.1.2 with h2 | h2
+    · rw [hf, hsr] at h2; simp at h2
+    · unfold rootKids at h2
+      exact List.contains_iff_mem.mp h2
+  · intro f m hfN hmN hf hcls
+    have h1 := h f (List.mem_range.mpr hfN)
+    simp only [Bool.and_eq_true, Bool.or_eq_true, Bool.not_eq_true'] at h1
+    rcases h1.2 with h2 | h2
+    · rw [hf] at h2; cases h2
+    · rw [List.all_eq_true] at h2
+      have h3 := h2 m (List.mem_range.mpr hmN)
+      simp only [Bool.or_eq_true, Bool.not_eq_true', beq_eq_false_iff_ne, beq_iff_eq] at h3
+      rcases h3 with h3 | h3
+      · exact absurd hcls h3
+      · exact h3
+
+theorem picks_init (g : Graph) (ncls : Nat) (store : List (String × List (String × String))) (hidden : List Nat) (c : Nat) :
+    picks (initState g ncls store hidden) c = 0 := by
+  unfold picks State.cr initState
+  simp only [List.getD_eq_getElem?_getD, List.getElem?_map]
+  cases (List.range ncls)[c]? <;> rfl
+
+theorem pickLevel_init (g : Graph) (ncls : Nat) (store : List (String × List (String × String))) (hidden : List Nat) :
+    pickLevel g (initState g ncls store hidden) = 1 := by
+  unfold pickLevel
+  have : ∀ l : List Nat, (l.map (fun f => picks (initState g ncls store hidden) (g.node f).cls)).sum = 0 := by
+    intro l
+    induction l with
+    | nil => rfl
+    | cons a r ih => rw [List.map_cons, List.sum_cons, ih, picks_init]
+  rw [this]
+
+
+
+/-- the paths after each of the first `k` `.cont` iterations (for the examples) -/
+def tracePaths (g : Graph) (w : Nat) : Nat → State → List (List Nat)
+  | 0, _ => []
+  | k + 1, s =>
+    match iterL g (s.setWd w (fun d => { d with pc := .loop })) w with
+    | (s1, _, .cont) => (s1.wd w).path :: tracePaths g w k s1
+    | _ => []
+
 end I2N.Trav.Term
